@@ -16,6 +16,7 @@ import Golib.HMap.Types
 import Golib.HMap.Multi
 import Golib.HMap.Enum
 import Golib.HMap.MultiLemmas
+import Golib.HMap.PlainValue
 
 set_option linter.unusedSectionVars false
 
@@ -154,6 +155,84 @@ theorem enumerator_size_driven (hash : K → Nat) (d : PDesc K V) (m : PMap K V)
 theorem enumerator_remaining (t : Table K V) (e : PEnum K V) (fuel : Nat) (h : (PEnum.remaining t e).length ≤ fuel) :
     PEnum.drain t fuel e = e.entry ++ (List.range e.index).reverse.flatMap t.bucket :=
   PEnum.drain_eq t fuel e h
+
+/-! ### reset after growth: Clear / Sort at any table size -/
+
+/-- **Clear in any state** (whatever the table went through — any number of growth steps, any capacity): the count is 0,
+    nothing is enumerated (by the table walk and by the enumerator object), every lookup is absent, the table keeps its
+    length; and from there on the container answers every history like the EMPTY finite map (with the configured bound kept).
+    The first five facts need no hypothesis at all. -/
+theorem clear_resets (hash : K → Nat) (thr : Nat → Nat) (d : PDesc K V) (m : PMap K V) :
+    (PMap.step hash thr d m .clear).1.count = 0 ∧
+    (PMap.step hash thr d m .clear).1.tab.entries = [] ∧
+    (∀ fuel, PEnum.drain (PMap.step hash thr d m .clear).1.tab fuel (PMap.step hash thr d m .clear).1.tab.openEnum = []) ∧
+    (∀ k, (PMap.step hash thr d m .clear).1.tab.get hash k = none) ∧
+    (PMap.step hash thr d m .clear).1.tab.cap = m.tab.cap ∧
+    (∀ s, PMap.Rel hash d m s → ∀ ops,
+      Outs.equiv (PMap.run hash thr d (PMap.step hash thr d m .clear).1 ops).2 (PS.run d { ents := [], max := s.max } ops).2) := by
+  have he : (PMap.step hash thr d m .clear).1.tab.entries = [] := by
+    simp [PMap.step, PMap.clear, Table.clear, Table.entries]
+  refine ⟨rfl, he, fun fuel => ?_, fun k => by simp [PMap.step, PMap.clear], by simp [PMap.step, PMap.clear],
+    fun s h ops => (PMap.plain_refine_run thr ops (PMap.clear_rel h)).2⟩
+  exact (Table.drain_open _ fuel (by rw [he]; exact Nat.zero_le _)).trans he
+
+/-- `Sort` (collect, sort, clear, re-put) of a map of any size is observably the identity: the same finite map, the same size -/
+theorem sort_same_map (hash : K → Nat) (thr : Nat → Nat) (d : PDesc K V) (m : PMap K V) (s : PS K V) (lt : K → K → Bool)
+    (h : PMap.Rel hash d m s) :
+    PMap.Rel hash d (PMap.step hash thr d m (.sort lt)).1 s ∧ (PMap.step hash thr d m (.sort lt)).1.count = m.count ∧
+    (∀ k, (PMap.step hash thr d m (.sort lt)).1.tab.get hash k = m.tab.get hash k) := by
+  have hs : PMap.Rel hash d (PMap.step hash thr d m (.sort lt)).1 s := PMap.sort_rel h lt
+  exact ⟨hs, by rw [hs.count, h.count], fun k => by rw [hs.get, h.get]⟩
+
+/-! ### values are opaque (any type, no equality on values) -/
+
+omit [DecidableEq V] in
+/-- **Put of a key, for a value type WITHOUT any equality**: the previous value (absent for a fresh key) is returned, the new
+    value is stored, every other key keeps its value, the size grows exactly for a fresh key.  (`V` is an arbitrary type:
+    functions, lists, anything — the Go `interface{}` values of any dynamic type, comparable or not.) -/
+theorem put_any_value (hash : K → Nat) (thr : Nat → Nat) (d : PDesc K V) (m : PMap K V) (s : PS K V)
+    (h : PMap.Rel hash d m s) (k : K) (v : V) (hr : d.refuse k = false) :
+    (m.put hash thr d k v).2 = m.get hash k ∧
+    (∀ k', (m.put hash thr d k v).1.get hash k' = if k = k' then some v else m.get hash k') ∧
+    (m.put hash thr d k v).1.count = if (m.get hash k).isSome then m.count else m.count + 1 := by
+  classical
+  obtain ⟨hrel, hout⟩ := PMap.put_rel (thr := thr) h k v
+  obtain ⟨l, mx⟩ := s
+  have hg : ∀ k', m.tab.get hash k' = AL.get l k' := h.get
+  simp only [PMap.get]
+  refine ⟨?_, fun k' => ?_, ?_⟩
+  · rw [hout, hg]
+    unfold PS.put PS.putWith
+    simp only [hr, Bool.false_eq_true, if_false]
+    cases AL.get l k <;> rfl
+  · rw [hrel.get k', map_get_put l k k' v d hr mx, hg]
+  · rw [hrel.count, map_size_put l k v d hr mx]
+    simp only [hg, h.count]
+
+omit [DecidableEq V] in
+/-- **The map never inspects a value**: relabelling every stored value by an arbitrary function `f` (injective or not, into any
+    type) commutes with put, putAll, get, remove, clear and with the enumeration — so no branch of these operations can
+    depend on a value or on a comparison of two values (only `ContainsValue`, which takes the comparison as a parameter, does). -/
+theorem value_opaque {W : Type} (hash : K → Nat) (thr : Nat → Nat) (f : V → W) (d : PDesc K V) (d' : PDesc K W)
+    (hr : ∀ k, d'.refuse k = d.refuse k) (m : PMap K V) :
+    (∀ k v, (m.mapV f).put hash thr d' k (f v) = ((m.put hash thr d k v).1.mapV f, (m.put hash thr d k v).2.map f)) ∧
+    (∀ l, (PMap.step hash thr d' (m.mapV f) (.putAll (l.map (cellMap f)))).1 = (PMap.step hash thr d m (.putAll l)).1.mapV f) ∧
+    (∀ k, (m.mapV f).get hash k = (m.get hash k).map f) ∧
+    (∀ k, (m.mapV f).remove hash k = ((m.remove hash k).1.mapV f, (m.remove hash k).2.map f)) ∧
+    (m.mapV f).clear = m.clear.mapV f ∧
+    (m.mapV f).tab.entries = m.tab.entries.map (cellMap f) ∧ (m.mapV f).count = m.count :=
+  ⟨fun k v => PMap.put_mapV hash thr f d d' hr m k v, fun l => PMap.putAll_mapV hash thr f d d' hr l m,
+   fun k => PMap.get_mapV hash f m k, fun k => PMap.remove_mapV hash f m k, PMap.clear_mapV f m,
+   Table.entries_mapV f m.tab, rfl⟩
+
+omit [DecidableEq V] in
+/-- **SetValue on the live entry of a present key is Put of that key**: `put k v` on a key that is present only rewrites the
+    value of its cell (`e.value = v`) — no growth, no new cell, count unchanged — and answers the previous value. -/
+theorem entry_setValue_is_put (hash : K → Nat) (thr : Nat → Nat) (d : PDesc K V) (m : PMap K V) (k : K) (v old : V)
+    (hr : d.refuse k = false) (hp : m.tab.get hash k = some old) :
+    m.put hash thr d k v = ({ m with tab := m.tab.setExisting hash k v }, some old) := by
+  unfold PMap.put PMap.putWith
+  simp [hr, hp]
 
 /-! ### several live containers: no aliasing -/
 
@@ -319,5 +398,25 @@ example :
   match i, hi' with
   | 0, _ => exact rel_init _ _ _ 1
   | 1, _ => exact rel_init _ _ _ 4
+
+/-- `clear_resets` after growth (the premise of `sort_same_map` is the same `Rel`, see `rel_init` / `plain_refine_from`): 6 keys from capacity 1 (the table grows three times, to 15 buckets), Clear, then the map
+    answers like a fresh one -/
+example :
+    let d : PDesc Int Int := { comb := fun a b => a + b, veq := fun a b => a == b }
+    let m := (PMap.run (fun k : Int => k.toNat) (fun c => c * 3 / 4) d (PMap.new (fun c => c * 3 / 4) 1)
+      [.put 0 1, .put 7 1, .put 14 1, .put 21 1, .put 28 1, .put 35 1]).1
+    m.tab.cap = 15 ∧ m.count = 6 ∧
+    (PMap.run (fun k : Int => k.toNat) (fun c => c * 3 / 4) d (PMap.step (fun k : Int => k.toNat) (fun c => c * 3 / 4) d m .clear).1
+      [.size, .isEmpty, .get 7, .put 7 3, .size, .entries]).2 = [.nat 0, .bool true, .none, .none, .nat 1, .ents [(7, 3)]] := by
+  decide +kernel
+
+/-- `put_any_value` / `value_opaque` / `entry_setValue_is_put` on values without equality: the values are FUNCTIONS `Nat → Nat` -/
+example :
+    let d : PDesc Int (Nat → Nat) := { comb := fun a _ => a, veq := fun _ _ => false }
+    let m := (PMap.put (fun k : Int => k.toNat) (fun c => c) d (PMap.new (fun c => c) 3) 5 (fun n => n + 1)).1
+    ((m.put (fun k : Int => k.toNat) (fun c => c) d 5 (fun n => n * 2)).2.map (· 10)) = some 11 ∧
+    (((m.put (fun k : Int => k.toNat) (fun c => c) d 5 (fun n => n * 2)).1.get (fun k : Int => k.toNat) 5).map (· 10)) = some 20 ∧
+    (m.put (fun k : Int => k.toNat) (fun c => c) d 5 (fun n => n * 2)).1.count = 1 := by
+  decide
 
 end C12
